@@ -26,7 +26,7 @@ SAN_ENV = {
 
 def base_flags():
     return ['-std=c++17', '-I', os.path.join(REPO, 'include'), '-I', os.path.join(VERIF, 'engine'),
-            '-I', os.path.join(VERIF, 'checks'), '-Wall', '-Wno-unused', '-Wno-sign-compare', '-fmax-errors=5']
+            '-I', os.path.join(VERIF, 'checks'), '-I', os.path.join(VERIF, 'sched'), '-Wall', '-Wno-unused', '-Wno-sign-compare', '-fmax-errors=5']
 
 
 def unit(name, src, mode='exact', shards=NCPU, args=None, flags=None, libs=None, cxx=None, env=None, kind='harness', group=None):
@@ -68,6 +68,7 @@ def unit_cmd(cid, u):
     binp = os.path.join(odir, 'bin')
     cxx = u['cxx'] or CXX
     srcs = u['src'] if isinstance(u['src'], list) else [u['src']]
+    srcs = [(s['path'] if isinstance(s, dict) else s) for s in srcs]
     srcs = [s if os.path.isabs(s) else os.path.join(VERIF, s) for s in srcs]
     cmd = [cxx] + base_flags() + MODES[u['mode']] + u['flags'] + srcs + ['-o', binp] + LIBS + u['libs']
     return odir, binp, cmd, srcs
@@ -92,14 +93,18 @@ def build_unit(cid, u):
         cxx = u['cxx'] or CXX
         cflags = base_flags() + MODES[u['mode']] + u['flags']
         objs = [os.path.join(odir, os.path.basename(sp) + '.o') for sp in srcs]
+        specs = u['src']
         def cc(i):
-            return subprocess.run([cxx] + cflags + ['-c', srcs[i], '-o', objs[i]], stdout=subprocess.PIPE, stderr=subprocess.STDOUT, text=True)
+            sp = specs[i] if isinstance(specs[i], dict) else {}
+            c = sp.get('cxx') or cxx
+            fl = (base_flags() if not sp.get('c') else ['-I', os.path.join(VERIF, 'sched')]) + MODES[u['mode']] + u['flags'] + sp.get('flags', [])
+            return subprocess.run([c] + fl + ['-c', srcs[i], '-o', objs[i]], stdout=subprocess.PIPE, stderr=subprocess.STDOUT, text=True)
         with ThreadPoolExecutor(len(srcs)) as ex:
             rs = list(ex.map(cc, range(len(srcs))))
         log = ''.join(r.stdout for r in rs)
         rc = max(r.returncode for r in rs)
         if rc == 0:
-            lk = subprocess.run([cxx] + MODES[u['mode']] + u['flags'] + objs + ['-o', binp] + LIBS + u['libs'], stdout=subprocess.PIPE, stderr=subprocess.STDOUT, text=True)
+            lk = subprocess.run([cxx] + MODES[u['mode']] + u.get('ldflags', u['flags']) + objs + ['-o', binp] + LIBS + u['libs'], stdout=subprocess.PIPE, stderr=subprocess.STDOUT, text=True)
             log += lk.stdout
             rc = lk.returncode
         class P: pass
